@@ -32,10 +32,22 @@ type vsymEtcdWatch struct {
 	startRev int64
 }
 
+type vsymEtcdKA struct {
+	ch     chan *clientv3.LeaseKeepAliveResponse
+	closed bool
+}
+
+func (k *vsymEtcdKA) close() {
+	if !k.closed {
+		k.closed = true
+		close(k.ch)
+	}
+}
+
 type vsymEtcdLease struct {
 	id    clientv3.LeaseID
 	alive bool
-	ka    []chan *clientv3.LeaseKeepAliveResponse
+	ka    []*vsymEtcdKA
 }
 
 type vsymEtcd struct {
@@ -374,8 +386,8 @@ func (e *vsymEtcd) expire(id clientv3.LeaseID) {
 	for _, k := range ks {
 		e.del(k, "")
 	}
-	for _, ch := range l.ka {
-		close(ch)
+	for _, k := range l.ka {
+		k.close()
 	}
 	l.ka = nil
 }
@@ -401,9 +413,14 @@ func (f *vsymEtcdFacade) KeepAlive(ctx context.Context, id clientv3.LeaseID) (<-
 	if !ok || !l.alive {
 		return nil, errors.New("etcdserver: requested lease not found")
 	}
-	ch := make(chan *clientv3.LeaseKeepAliveResponse, 1)
-	l.ka = append(l.ka, ch)
-	return ch, nil
+	k := &vsymEtcdKA{ch: make(chan *clientv3.LeaseKeepAliveResponse, 1)}
+	l.ka = append(l.ka, k)
+	// like the real client, the stream ends when the caller's context is cancelled
+	go func() {
+		<-ctx.Done()
+		k.close()
+	}()
+	return k.ch, nil
 }
 
 func (f *vsymEtcdFacade) KeepAliveOnce(ctx context.Context, id clientv3.LeaseID) (*clientv3.LeaseKeepAliveResponse, error) {
